@@ -1,3 +1,4 @@
+\* negative control (defect 5, overflow checks on: count * N panics): expected to FAIL
 SPECIFICATION Spec
 INVARIANT Latched
 INVARIANT PrefixAlways
@@ -7,8 +8,8 @@ PROPERTY Termination
 CHECK_DEADLOCK FALSE
 CONSTANTS
   NS = {1, 2, 3}
-  MAXCOUNT = 3
+  MAXCOUNT = 7
   FAULTS = 1
   FASTALL = TRUE
-  CNTMOD = 0
-  PANICS = FALSE
+  CNTMOD = 8
+  PANICS = TRUE
